@@ -21,7 +21,7 @@ RULE = ("For generated valid objects of all seven formats (composeinfo, images, 
         "exist. After every dump that raised, the bytes at the path must equal the bytes before (or the path must still not "
         "exist) and the directory must hold no stray file; with no fault the dump must succeed and change the file. One "
         "evaluation = one (object, fault point, k, destination state) trial; non-trivial = the fault fired after the "
-        "top-level validation had passed (inside a nested writer); distinct = object hash + fault point. Also planted: values no validator looks at and no writer can write (non-string image name, a frozenset in a payload), and a size class of large objects (25 000 / 70 000 manifest entries, thousands of images / variants) for size-dependent writer paths. Destinations are also hard-linked, symlinked, spelled as os.PathLike, or handed over as a stream opened for update.")
+        "top-level validation had passed (inside a nested writer); distinct = object hash + fault point. Also planted: values no validator looks at and no writer can write (non-string image name, a frozenset in a payload), and a size class of large objects (25 000 / 70 000 manifest entries, thousands of images / variants) for size-dependent writer paths. Destinations are also hard-linked, symlinked, spelled as os.PathLike, or handed over as a stream opened for update. Sub-check ascii-locale: a child process under LC_ALL=C / POSIX (no UTF-8 coercion) dumps trees and disc descriptions carrying non-ASCII text; if the dump fails the destination is as it was. Values that pass every outward check but do not survive the trip are planted too (a dump failing after the write is a failed dump).")
 ASSUMPTIONS = ["faults are injected by shadowing the validator on the instance inside the harness process; no hook in productmd is needed",
                "a failure of json/ConfigParser serialisation itself (non-serialisable payload) is not a validation failure and is not injected"]
 FLOORS = {"distinct_nontrivial": 1500, "composeinfo": 200, "images": 200, "treeinfo": 200, "rpms": 20, "modules": 20, "extra_files": 20}
@@ -399,6 +399,23 @@ def discinfo_case(case):
     return _result("discinfo", units + u2, trials + t2)
 
 
+# ---- a process whose locale cannot encode the text --------------------------------------------------------------------------
+def ascii_locale_case(case):
+    import json
+    import subprocess
+    import sys
+    from pbt.runner import VERIF_DIR, REPO, HarnessError
+    env = dict(os.environ, PYTHONPATH=VERIF_DIR + os.pathsep + os.path.join(VERIF_DIR, ".deps"), VERIF_REPO=REPO, PYTHONHASHSEED="0", PYTHONDONTWRITEBYTECODE="1",
+               LC_ALL=case["locale"], LANG=case["locale"], PYTHONUTF8="0", PYTHONCOERCECLOCALE="0")
+    proc = subprocess.run([sys.executable, "-m", "pbt.c18_child"], capture_output=True, text=True, env=env, cwd=VERIF_DIR, timeout=600)
+    if proc.returncode != 0:
+        raise HarnessError("C18 child failed:\n%s" % proc.stderr[-2000:])
+    res = json.loads(proc.stdout)
+    if res["findings"]:
+        raise Violation(res["findings"][0]["bucket"], res["findings"][0]["message"])
+    return {"nontrivial": True, "labels": ["locale-encoding:" + res["encoding"]], "units": ["locale:%s" % case["locale"]], "unit_evaluations": res["trials"]}
+
+
 # ---- large objects: size-dependent code paths (streaming / chunked writers) must obey the same rule ----------------------
 def large_object(kind, n):
     if kind == "rpms":
@@ -508,7 +525,8 @@ def run(ctx):
     ctx.forall("extra_files", mf.extra_history(allow_breaks=False, max_ops=5), extra_case, ctx.n(32, 800), shrink=False)
     ctx.forall("treeinfo", st.fixed_dictionaries({"desc": tim.tree_desc(max_top=2), "use_main": st.booleans()}), treeinfo_case, ctx.n(64, 3200), shrink=False)
     ctx.forall("discinfo", disc_strategy, discinfo_case, ctx.n(32, 800), shrink=False)
+    ctx.sweep("ascii-locale", [{"locale": "C"}, {"locale": "POSIX"}], ascii_locale_case, exhaustive=True, stop_after=2)
 
 
-REPLAY = {"composeinfo": composeinfo_case, "images": images_case, "rpms": rpms_case, "modules": modules_case, "extra_files": extra_case,
+REPLAY = {"ascii-locale": ascii_locale_case, "composeinfo": composeinfo_case, "images": images_case, "rpms": rpms_case, "modules": modules_case, "extra_files": extra_case,
           "treeinfo": treeinfo_case, "discinfo": discinfo_case, "large-objects": large_case}
